@@ -243,7 +243,7 @@ def main():
                      "overwritten in program order), proved equal to the closed form the theorems are about "
                      "(TWV.Properties.RfaImp), regenerated from rfa.py's AST by translator T4 and proved equal to that model on "
                      "every run (TWV.Tie.RfaLoops); the driver answers every case with both models.")
-        if pid in ("C02", "C08", "C09", "C11", "C12", "C13", "C14", "C15", "C16", "C20"):
+        if pid in ("C01", "C02", "C03", "C08", "C09", "C11", "C12", "C13", "C14", "C15", "C16", "C20"):
             text += (" What every state-changing Weaver method computes and stores (which library function on which "
                      "attributes, in which order, with which arguments; the state left behind by a failing call) is "
                      "regenerated from weaver.py's AST by translator T9 and proved equal to the state machine Weaver.step of "
